@@ -56,6 +56,7 @@ func runSpecial(c *core.Ctx) []core.Obligation {
 	}
 	obs = append(obs, capRadiusArithmetic(c)...)
 	obs = append(obs, rawLongitudeLiterals(c)...)
+	obs = append(obs, capExpandedSaturates(c))
 	return obs
 }
 
@@ -271,4 +272,49 @@ func rawLongitudeLiterals(c *core.Ctx) []core.Obligation {
 	}
 	obs = append(obs, core.Ob("R-SPECIAL", "raw-longitude-literal:scan", "-", "", core.Discharged, fmt.Sprintf("%d s1.Interval literals outside package s1 examined", lits)))
 	return obs
+}
+
+
+// capExpandedSaturates (after round-7 seed C19-r7m2, a "single point" fast path in Cap.Expanded that builds the result
+// with CapFromCenterAngle(center, distance)): the distance may be any angle, including s1.InfAngle(), whose chord angle
+// is +Inf. The general path is safe because ChordAngle.Add saturates at StraightChordAngle; a result radius that does
+// not come out of Add can be +Inf, and then the cap is neither valid nor full although it contains every point, and
+// its complement is a point. Every non-empty result of Expanded takes its radius from radius.Add(...).
+func capExpandedSaturates(c *core.Ctx) core.Obligation {
+	const construct = "(s2.Cap).Expanded:radius-through-Add"
+	fn := c.Fn("s2", "Cap", "Expanded")
+	if fn == nil {
+		return core.Ob("R-SPECIAL", construct, "-", "", core.Violated, "unresolved anchor")
+	}
+	nret, bad := 0, ""
+	for _, b := range fn.Blocks {
+		ret, ok := b.Instrs[len(b.Instrs)-1].(*ssa.Return)
+		if !ok || len(ret.Results) != 1 {
+			continue
+		}
+		nret++
+		call, ok := ret.Results[0].(*ssa.Call)
+		if !ok || core.StaticCallee(call) == nil {
+			bad = c.Pos(ret.Pos())
+			continue
+		}
+		switch core.StaticCallee(call).Name() {
+		case "EmptyCap":
+		case "CapFromCenterChordAngle":
+			add, isAdd := call.Call.Args[len(call.Call.Args)-1].(*ssa.Call)
+			if !isAdd || core.StaticCallee(add) == nil || core.StaticCallee(add).Name() != "Add" {
+				bad = c.Pos(ret.Pos())
+			}
+		default:
+			bad = c.Pos(ret.Pos())
+		}
+	}
+	if nret == 0 {
+		return core.Ob("R-SPECIAL", construct, c.Pos(fn.Pos()), core.FuncName(fn), core.Violated, "unresolved anchor: no return found")
+	}
+	if bad != "" {
+		return core.Ob("R-SPECIAL", construct, bad, core.FuncName(fn), core.Violated,
+			"the result at "+bad+" does not take its radius from ChordAngle.Add, the only step that saturates at 180 degrees: expanded by s1.InfAngle() (or any angle whose chord angle is the +Inf sentinel) the cap gets an infinite radius, is neither valid nor full although it contains every point, and its complement is a single point instead of empty")
+	}
+	return core.Ob("R-SPECIAL", construct, c.Pos(fn.Pos()), core.FuncName(fn), core.Discharged, fmt.Sprintf("%d results: the empty cap, or center with radius.Add(...)", nret))
 }
